@@ -25,9 +25,14 @@ def item_text(it):
     return s
 
 
-def text(rules, used_terms=None):
+def text(rules, used_terms=None, acts=None):
+    """acts: {rule name: built-in action name} written as a decorator line `@name` in front of the rule"""
     out = ""
+    done = set()
     for name, alts in rules:
+        if acts and name in acts and name not in done:
+            out += "@%s\n" % acts[name]
+            done.add(name)
         out += "%s: %s;\n" % (name, " | ".join(" ".join(item_text(i) for i in alt) if alt else "EMPTY" for alt in alts))
     terms = [t for t in (used_terms or sorted(_terms_of([a for _, alts in rules for a in alts]))) if t not in INLINE.values()]
     if terms:
